@@ -515,14 +515,14 @@ def _exec_net(case):
         obs_all = [{"id": int(ob.obstacle_id), "occ": _occ(ob, 0)} for ob in obstacles]
         present = [ob for ob in obstacles if t0[ob.obstacle_id] <= 0]
         obs_p = [o for o in obs_all if t0[o["id"]] <= 0]
-        la = sorted(net.lanelets, key=lambda q: q.lanelet_id)[0]
-        e = dict(common, op="get_obstacles", lid=int(la.lanelet_id), t=0, obs=obs_all, res=[], exc="",
-                 sig="get_obstacles/absent-at-t")
-        try:
-            e["res"] = [int(o.obstacle_id) for o in la.get_obstacles(obstacles, 0)]
-        except Exception as ex:
-            e["exc"] = _exc(ex)
-        ev.append(e)
+        for la in sorted(net.lanelets, key=lambda q: q.lanelet_id)[:1]:      # (the network may be empty after a cut-out)
+            e = dict(common, op="get_obstacles", lid=int(la.lanelet_id), t=0, obs=obs_all, res=[], exc="",
+                     sig="get_obstacles/absent-at-t")
+            try:
+                e["res"] = [int(o.obstacle_id) for o in la.get_obstacles(obstacles, 0)]
+            except Exception as ex:
+                e["exc"] = _exc(ex)
+            ev.append(e)
         for lst, obs, tag in ((present, obs_p, "present"), (obstacles, obs_all, "absent-at-0")):
             e = dict(common, op="map_obstacles", obs=obs, res=[], exc="", sig="map_obstacles/" + tag)
             try:
